@@ -39,8 +39,9 @@ MODES = ('av', 'si', 'cv')
 STR_ROUTES_MODE = ['ptr', 'buf', 'std', 'view', 'ctor', 'ctorbuf', 'ctorstd', 'ctorview',
                    'set', 'setbuf', 'setstd', 'setview']
 STR_ROUTES_DEFAULT_ONLY = ['assign', 'assignstd', 'assignview']
-STR_ROUTES_U8 = ['u8', 'u8std', 'u8view', 'u8ctor', 'u8set', 'u8ctorview', 'setmove', 'ctormove']
-STR_ROUTES_U8_DEFAULT_ONLY = ['u8assignstd']
+STR_ROUTES_U8 = ['u8', 'u8std', 'u8view', 'u8ctor', 'u8set', 'u8ctorview', 'setmove', 'ctormove',
+                 'aliasset', 'aliasview', 'aliasu8']
+STR_ROUTES_U8_DEFAULT_ONLY = ['u8assignstd', 'aliasasg']
 STR_TO_ROUTES = ['to', 'tobuf', 'std', 'stdref']
 
 
@@ -339,7 +340,7 @@ def routes_for(fn, with_default=False):
 
 def default_only_routes(fn):
     if fn in STR_FROM and fn != 'str_from_latin_1':
-        r = list(STR_ROUTES_DEFAULT_ONLY) + ['assigncstr']
+        r = list(STR_ROUTES_DEFAULT_ONLY) + ['assigncstr', 'plus', 'rplus', 'pluseq']
         if fn == 'str_from_utf8':
             r += STR_ROUTES_U8_DEFAULT_ONLY
         return r
@@ -356,7 +357,7 @@ def subs_for(fn):
 
 def ok_for_route(route, units):
     """cstr routes take the length from the terminator: no embedded NUL"""
-    if route in ('cstr', 'assigncstr', 'ctorcstr', 'setcstr'):
+    if route in ('cstr', 'assigncstr', 'ctorcstr', 'setcstr', 'plus', 'rplus', 'pluseq', 'aliasasg'):
         return 0 not in units
     return True
 
